@@ -67,6 +67,10 @@ def run_history(ctx, hist_spec, workdir: Path):
             save.save_json(path, name, out)
         except KeyError as e:      # Output.metadata without func
             exc = e
+        except Exception as e:  # noqa: BLE001  (a run of at least one step must be saved: any other exception is a failure)
+            fails.append({"step": i, "what": f"save_json raised {type(e).__name__}: {str(e)[:120]} - the run is not saved",
+                          "name": name})
+            break
         cur = sl.read_parsed(path)
         if exc is not None:
             step_lines.append("exc")
